@@ -574,10 +574,16 @@ func (v *Validator) isEntityDescendantFrom(childType, ancestorType types.EntityT
 // anyEntityDescendantOf returns true if any entity type in lhs can be a
 // descendant (member) of any entity type in rhs, or if lhs and rhs share a
 // common entity type (same type means "in" can be true for the same entity).
+// Membership of action entities is given by the action hierarchy, not by
+// ParentTypes: an action can be a member of an action group of any action
+// entity type (the group may be declared in another namespace).
 func (v *Validator) anyEntityDescendantOf(lhs, rhs entityLUB) bool {
 	for _, lt := range lhs.elements {
 		for _, rt := range rhs.elements {
 			if lt == rt {
+				return true
+			}
+			if isActionEntity(lt) && isActionEntity(rt) {
 				return true
 			}
 			if v.isEntityDescendant(lt, rt) {
